@@ -81,7 +81,9 @@ package cli
 //@   property C17
 //@   requires offset != nil ==> line != nil && offset != line
 // the error offset handed over lies inside the retained window
+//@   property F
 //@   requires offset != nil && ir.buf != nil ==> 0 <= deref(offset) && deref(offset) <= len(out(ir.buf))
+//@   property C17
 //@   modifies cell(offset), cell(line)
 //@   loop 1 invariant offset != nil ==> deref(offset) <= old(deref(offset)) && (old(deref(offset)) >= 1 ==> deref(offset) >= 1)
 //@   ensures offset != nil && ir.buf == nil && old(deref(offset)) >= 1 ==> deref(offset) >= 1 && deref(offset) <= old(deref(offset))
@@ -93,7 +95,9 @@ package cli
 //@ func (e *encoder) writeIndentInternal(n int, spaces string)
 //@   property C12
 //@   requires e.w != nil && n > 0 && len(spaces) >= 1 && len(spaces) < 1 << 20
+//@   property F
 //@   requires forall k :: {spaces[k]} 0 <= k && k < len(spaces) ==> spaces[k] == spaces[0]
+//@   property C12
 //@   modifies out(e.w)
 //@   loop 1 invariant e.w == old(e.w) && n >= 0 && l >= 1 && n + len(out(e.w)) == n0 + len(old(out(e.w))) && l <= len(out(e.w)) - len(old(out(e.w)))
 //@   loop 1 invariant out(e.w) == old(out(e.w)) + rep(spaces[0], len(out(e.w)) - len(old(out(e.w))))
@@ -208,3 +212,7 @@ package cli
 //@   property C17
 //@   requires i.ir.buf != nil || i.ir.rs != nil
 //@   modifies *
+
+// C08: an encoder always has its buffer (newEncoder creates it)
+//@ property C08 C12
+//@ invariant-of (e *encoder) e.w != nil
